@@ -208,9 +208,29 @@ int main()
             std::memset(buf.get(), 0xAA, pre + w.size() + post);
             if (not w.empty()) std::memcpy(buf.get() + pre, w.data(), w.size());
             const ipr::String& s = lexicon[k]->get_string(word_view(buf.get() + pre, w.size()));
+            // The same word through the other documented entry, `util::string_pool::intern` on a pool of the client's own (two of
+            // them, alive for the whole process): the same characters; for the empty word and the reserved words the very node the
+            // Lexicon answers (the process-wide constant); otherwise a node of that pool -- the same at every request, different
+            // from the other pool's and from the Lexicon's.  (Words up to 4 KiB, to keep the pool-filling traces as they are.)
+            bool client_pool = true;
+            if (w.size() <= 4096) {
+               static Pool own[2];
+               std::memset(buf.get(), 0xAB, pre); std::memset(buf.get() + pre + w.size(), 0xAB, post);
+               const ipr::String& a1 = own[0].intern(word_view(buf.get() + pre, w.size()));
+               const ipr::String& b1 = own[1].intern(word_view(buf.get() + pre, w.size()));
+               const ipr::String& a2 = own[0].intern(word_view(w.data(), w.size()));
+               const auto chars = word_view(w.data(), w.size());
+               if (a1.characters() != chars or b1.characters() != chars or s.characters() != chars) client_pool = false;
+               if (&a1 != &a2) client_pool = false;
+               std::size_t bytes = 0; bool at_header = true;
+               const bool constant = where(k, s, bytes, at_header) == "static";
+               if (constant and (&a1 != &s or &b1 != &s)) client_pool = false;
+               if (not constant and (&a1 == &s or &b1 == &s or &a1 == &b1)) client_pool = false;
+            }
             std::memset(buf.get(), 0x55, pre + w.size() + post);
             buf.reset();
             out = describe(k, s, true);
+            if (not client_pool) out += "\n@string_pool_of_the_client_agrees=0";
          }
          else if (op == "inject") {
             int k = lex_index(a);
